@@ -325,9 +325,17 @@ type memStore struct {
 }
 
 func (s *memStore) Get(k string) ([]byte, error) {
+	isBody := strings.HasSuffix(k, "_body")
+	// schedule point BEFORE the body of a hit is read: whatever happens to the key between the entry
+	// lookup and this Get (eviction, expiry, invalidation, a newer response) shows in the reply
+	if s.w != nil && s.w.cfg.sy && isBody {
+		if id, ok := s.w.curOp(); ok {
+			s.w.yield(id, "B")
+		}
+	}
 	v := s.get(k)
-	// schedule point at the storage boundary: the value has been read, the caller has not seen it yet
-	if s.w != nil && s.w.cfg.sy && !strings.HasSuffix(k, "_body") {
+	// schedule point at the storage boundary: the entry has been read, the caller has not seen it yet
+	if s.w != nil && s.w.cfg.sy && !isBody {
 		if id, ok := s.w.curOp(); ok {
 			s.w.yield(id, "G")
 		}
@@ -639,7 +647,7 @@ func runHistory(c cfgIn, ops []opIn, scheds map[int][]int) string {
 		}
 		// drain: the lowest thread that can be released (not started, or parked at a yield point; a
 		// thread blocked on the middleware's mutex continues by itself once the holder leaves); bounded
-		// (a thread needs at most 4 releases: start, K, G, H)
+		// (a thread needs at most 4 releases: start, K, G, then H or B)
 		releasable := func(t int) bool {
 			fmu.Lock()
 			f := finished[t]
@@ -654,7 +662,7 @@ func runHistory(c cfgIn, ops []opIn, scheds map[int][]int) string {
 			defer w.mu.Unlock()
 			return w.park[i+t] != ""
 		}
-		for round := 0; round < 4*n+4; round++ {
+		for round := 0; round < 5*n+4; round++ {
 			any := false
 			for t := 0; t < n; t++ {
 				if releasable(t) {
